@@ -96,6 +96,7 @@ type sessTap struct {
 	closeSeen         [2]bool
 	dropped           [2]int
 	hsDone            bool // the first server data segment (the SOCKS reply) reached the client
+	quotaClose bool // the server sent a close request with the quota-exhausted status
 }
 
 func newTap(w *World) *Tap {
@@ -413,6 +414,9 @@ func (t *Tap) onStreamSegment(st *streamTap, dir simnet.Dir, s *refproto.Segment
 	}
 	if s.Meta.Type == refproto.TypeCloseReq {
 		ss.closeSeen[dir] = true
+		if dir == simnet.S2C && s.Meta.Status == 1 {
+			ss.quotaClose = true
+		}
 	}
 	return out
 }
@@ -675,6 +679,9 @@ func (t *Tap) c13OnSend(ss *sessTap, dir int, s *refproto.Segment, d *simnet.Dat
 	}
 	if m.Type == refproto.TypeCloseReq {
 		ss.closeSeen[dir] = true
+		if dir == 1 && m.Status == 1 {
+			ss.quotaClose = true
+		}
 	}
 	return out
 }
@@ -925,4 +932,17 @@ func (t *Tap) hostileSessionsOpened() int {
 	t.mu.Lock()
 	defer t.mu.Unlock()
 	return t.hostileOpened
+}
+
+// sawQuotaClose: the server emitted a close request with status 1 (quota
+// exhausted) for the wire session that carries this harness session.
+func (t *Tap) sawQuotaClose(rt *sessRT) bool {
+	t.mu.Lock()
+	defer t.mu.Unlock()
+	for _, ss := range t.sess {
+		if (ss.key == rt.key || ss.key == "") && ss.client == rt.ci && ss.quotaClose {
+			return true
+		}
+	}
+	return false
 }
